@@ -224,6 +224,34 @@ func rasterScenario(procs int, filtered bool) {
 		}})
 }
 
+// kmeansCoincident: every point handled by worker 0 (indices 0, procs, 2 procs, ...) coincides exactly with a
+// centre, so that worker's partial error is zero while its points still weigh in the new centres; the other
+// workers hold ordinary points of the same cluster.
+func kmeansCoincident(procs int) {
+	var data []numerical.Vec3
+	others := []numerical.Vec3{{1, 0, 0}, {0, 2, 0}, {2, 2, 0}, {9, 8, 8}, {8, 10, 8}, {1, 1, 4}, {10, 10, 8}, {0, 0, 2}}
+	for i, k := 0, 0; i < 3*procs; i++ {
+		if i%procs == 0 {
+			data = append(data, numerical.Vec3{0, 0, 0})
+		} else {
+			data = append(data, others[k%len(others)])
+			k++
+		}
+	}
+	run := func() string {
+		km := &numerical.KMeans[numerical.Vec3]{Centers: []numerical.Vec3{{0, 0, 0}, {8, 8, 8}}, Data: data}
+		loss := km.Iterate()
+		return fmt.Sprintf("centers=%v loss=%v assign=%v", km.Centers, loss, km.Assign(data))
+	}
+	register(scenario{name: fmt.Sprintf("kmeans-coincident/procs%d", procs), procs: procs, prop: "C13", about: "KMeans.Iterate where one worker only holds points that coincide with a centre",
+		body: run, want: func() string {
+			old := vsched.NumProcs
+			vsched.NumProcs = 1
+			defer func() { vsched.NumProcs = old }()
+			return run()
+		}})
+}
+
 func cacheFuncScenario() {
 	run := func() string {
 		f := model2d.CacheScalarFunc(func(x float64) float64 { return x*x + 1 })
@@ -340,6 +368,8 @@ func init() {
 	meshLazy2("mesh2-lazy/3readers", [][]int{{0}, {1}, {2}})
 	kmeansScenario(2)
 	kmeansScenario(3)
+	kmeansCoincident(2)
+	kmeansCoincident(3)
 	cacheFuncScenario()
 	heightMapScenario(2, 3)
 	heightMapScenario(2, 4)
